@@ -9,7 +9,7 @@ NRPC = 10
 
 def trace_cfg(prop):
     """prop = None: no property clause is enforced, only the interface facts of the specification."""
-    return ("SPECIFICATION TSpec\nCONSTANTS\n  Pods = {1,2,3,4}\n  Rpcs = {%s}\n  Enis = {1,2,3,4}\n  Enforce = {%s}\n"
+    return ("SPECIFICATION TSpec\nCONSTANTS\n  Pods = {1,2,3,4}\n  Rpcs = {%s}\n  Enis = {1,2,3,4,5,6}\n  Enforce = {%s}\n"
             "CONSTRAINT Inv%s\nCONSTRAINT HighWater\nINVARIANT NotAccepted\nPOSTCONDITION Report\nCHECK_DEADLOCK FALSE\n" % (
                 ",".join(str(i) for i in range(1, NRPC + 1)), '"%s"' % prop if prop else "", prop or "None"))
 
@@ -139,6 +139,8 @@ def tags(t):
         elif ev in ("put_end", "del_end") and not r["ok"]: s.add("db_write_fault")
         elif ev == "env_disturb": s.add("gc_cleanup_fault")
         elif ev == "reset" and r.get("conf", {}).get("v6"): s.add("dual_stack")
+        elif ev == "reset" and r.get("conf", {}).get("realdb"): s.add("real_InitResourceDB")
+        elif ev == "reset" and r.get("conf", {}).get("policy") == "least_ips" and r["conf"].get("slots", 0) > (1 if r["conf"].get("n1") else 0) + (1 if r["conf"].get("n2") else 0): s.add("least_ips_with_empty_slot")
         elif ev == "reset" and r.get("conf", {}).get("realk8s"): s.add("real_k8s_client")
         elif ev == "k8s_podexist" and r["exist"] and "real_k8s_client" in s: s.add("watch_cache_lagged_behind_running_pod")
     return s
